@@ -10,7 +10,7 @@ import (
 )
 
 func init() {
-	Explanations["C17"] = "Decides structural necessary conditions of backend agreement for the layered key-value stores in package chain and the Bolt adapter: (R1) every single-key read that consults a base layer (MemDB.buckets or the wrapped DBBucket.Get) does so only after an overlay miss and on the negative edge of an explicit membership test of the pending-deletes map, and every iterator ranges over both the base layer and the pending puts while guarding each base entry by the puts/dels tests; (R2) put removes the key from the pending deletes and delete removes it from the pending puts on every path; (R3) MemDB.Flush drains both overlays and MemDB.Cancel removes their entries (not just the per-bucket contents), CacheDB.Flush ends in the backend's Flush after clearing its overlay and leaves no entry in its field-held scratch lists at any exit, CacheDB.Cancel cancels both layers, and BoltChainDB.Flush/Cancel commit/roll back and reset the single open write transaction which every bucket access obtains through one helper. (R4) for every overlay map whose missing per-bucket entry lets a per-key operation return its bucket-does-not-exist error, MemDB.CreateBucket stores an entry on every path to a success return. NOT decided: equality of results over arbitrary operation sequences (needs execution), bbolt's own semantics, iteration order."
+	Explanations["C17"] = "Decides structural necessary conditions of backend agreement for the layered key-value stores in package chain and the Bolt adapter: (R1) every single-key read that consults a base layer (MemDB.buckets or the wrapped DBBucket.Get) does so only after an overlay miss and on the negative edge of an explicit membership test of the pending-deletes map, and every iterator ranges over both the base layer and the pending puts while guarding each base entry by the puts/dels tests; (R2) put removes the key from the pending deletes and delete removes it from the pending puts on every path; (R3) MemDB.Flush drains both overlays and MemDB.Cancel removes their entries (not just the per-bucket contents), CacheDB.Flush ends in the backend's Flush after clearing its overlay and leaves no entry in its field-held scratch lists at any exit, CacheDB.Cancel cancels both layers, and BoltChainDB.Flush/Cancel commit/roll back and reset the single open write transaction which every bucket access obtains through one helper. (R4) for every overlay map whose missing per-bucket entry lets a per-key operation return its bucket-does-not-exist error, MemDB.CreateBucket stores an entry on every path to a success return. (R5) CacheDB.CreateBucket calls the overlay's CreateBucket only via the success edge of the backend's. NOT decided: equality of results over arbitrary operation sequences (needs execution), bbolt's own semantics, iteration order."
 
 	register(&Rule{ID: "C17.R1", Prop: "C17", Floor: 6,
 		Doc: "layer agreement: base-layer reads only after overlay miss and on the negative edge of a pending-delete test; iterators range over base and pending puts and guard base entries",
